@@ -241,6 +241,12 @@ pub fn scripts() -> Vec<Vec<Op>> {
 }
 
 pub fn archive(seed: u64) -> (Vec<u8>, Vec<String>) {
+    archive_layout(seed, 0)
+}
+
+/// layout 0: central directory in file order; 1: central directory reversed (entry k-1 of the directory lies BEHIND entry k
+/// in the file); 2: rotated by three records. by_index / by_name go by directory position, `names` is in that order.
+pub fn archive_layout(seed: u64, layout: u8) -> (Vec<u8>, Vec<String>) {
     use crate::reference::zipbuild::{build, extra_block, ESpec, Enc, Spec};
     let mut r = crate::util::Rng(seed ^ 0x20);
     let e = |name: &str, method: u16, content: Vec<u8>| ESpec { name: name.as_bytes().to_vec(), method, content, made_by: (3 << 8) | 20, ext_attr: 0o100644 << 16, ..Default::default() };
@@ -260,8 +266,19 @@ pub fn archive(seed: u64) -> (Vec<u8>, Vec<String>) {
         comment: b"shared".to_vec(),
         ..Default::default()
     };
+    let mut spec = spec;
+    let n = spec.entries.len();
+    let order: Vec<usize> = match layout {
+        1 => (0..n).rev().collect(),
+        2 => (0..n).map(|i| (i + 3) % n).collect(),
+        _ => (0..n).collect(),
+    };
+    if layout != 0 {
+        spec.cd_order = Some(order.clone());
+    }
     let (bytes, _) = build(&spec);
-    (bytes, vec!["stored".into(), "deflated".into(), "zstd".into(), "with-extra".into(), "crypto".into(), "empty".into(), "dir/".into(), "aes".into()])
+    let names: Vec<String> = order.iter().map(|&i| String::from_utf8_lossy(&spec.entries[i].name).into_owned()).collect();
+    (bytes, names)
 }
 
 /// All interleavings of k sequences with the given lengths, as lists of handle indices.
@@ -312,7 +329,7 @@ fn check_tuple(bytes: &[u8], names: &[String], scr: &[&Vec<Op>], ils: &[Vec<u8>]
             }
             hs.iter().map(|h| h.log.clone()).collect::<Vec<_>>()
         });
-        let case = || json!({"scripts": ids, "interleaving": il});
+        let case = || json!({"scripts": ids, "interleaving": il, "layout": LAYOUT.with(|l| l.get())});
         match r {
             Err(p) => {
                 st.class("PANIC");
@@ -339,8 +356,15 @@ fn check_tuple(bytes: &[u8], names: &[String], scr: &[&Vec<Op>], ils: &[Vec<u8>]
     }
 }
 
+thread_local! {
+    /// layout of the archive the current tuple runs on (recorded in replay files)
+    static LAYOUT: std::cell::Cell<u8> = const { std::cell::Cell::new(0) };
+}
+
 fn replay(case: &Value, st: &mut Stats, seed: u64) {
-    let (bytes, names) = archive(seed);
+    let layout = case["layout"].as_u64().unwrap_or(0) as u8;
+    LAYOUT.with(|l| l.set(layout));
+    let (bytes, names) = archive_layout(seed, layout);
     let all = scripts();
     let ids: Vec<usize> = case["scripts"].as_array().map(|a| a.iter().map(|x| x.as_u64().unwrap_or(0) as usize).collect()).unwrap_or_default();
     let il: Vec<u8> = case["interleaving"].as_array().map(|a| a.iter().map(|x| x.as_u64().unwrap_or(0) as u8).collect()).unwrap_or_default();
@@ -422,6 +446,23 @@ pub fn run(args: &Args) -> i32 {
         check_tuple(bytes_r, names_r, &[&all_r[a], &all_r[b], &all_r[c]], il3_r, &[&solos_r[a], &solos_r[b], &solos_r[c]], st, (1 << 60) | (t as u64) << 32, &[a, b, c]);
     });
     ctx.stats.merge(s);
+    // the same pairs on archives whose central directory is not in file order (reversed; rotated by three): what a handle
+    // observes for entry k must not depend on which other entries any handle has located before
+    for layout in [1u8, 2] {
+        let (bytes_l, names_l) = archive_layout(seed, layout);
+        let ids: Vec<usize> = (0..n).filter(|i| !all[*i].iter().any(|o| matches!(o, Op::OpenPw(7) | Op::OpenWrongPw(7)))).collect();
+        let solos_l: Vec<Vec<String>> = all.iter().map(|s| alone(&bytes_l, s, &names_l)).collect();
+        let m = ids.len();
+        let (bytes_lr, names_lr, solos_lr, ids_r) = (&bytes_l, &names_l, &solos_l, &ids);
+        let s = par_for((m * m) as u64, 1, |t, st| {
+            LAYOUT.with(|l| l.set(layout));
+            let (a, b) = (ids_r[(t as usize) / m], ids_r[(t as usize) % m]);
+            check_tuple(bytes_lr, names_lr, &[&all_r[a], &all_r[b]], il2_r, &[&solos_lr[a], &solos_lr[b]], st, (2 << 60) | ((layout as u64) << 56) | t << 32, &[a, b]);
+            LAYOUT.with(|l| l.set(0));
+        });
+        ctx.stats.merge(s);
+    }
+    ctx.bound("archive_layouts", json!(["central directory in file order (all pairs, triples)", "central directory reversed (all pairs of the scripts without AES opens)", "central directory rotated by three records (same)"]));
     ctx.stats.sample(json!({"solo_log_of_script_0": solos[0]}));
     // loom harness result, if it ran
     let loom_ev = format!("{}/evidence/C20-loom.json", crate::util::verif_root());
